@@ -60,7 +60,7 @@ def reproduce_and_report(res, origin):
         again = c.run_harness(binp, ['-mode', 'raw', '-in', f2])
         os.remove(f2)
         if sig not in [x['signature'] for x in again['violations']]:
-            c.inconclusive('violation %s not reproduced on re-execution: %s' % (sig, v['detail']))
+            c.unreproduced('violation %s not reproduced on re-execution: %s' % (sig, v['detail']))
         c.report(sig, v['detail'], {'raw': raw, 'expect': sig, 'origin': origin, 'harness': 'c12'})
 
 
